@@ -90,6 +90,7 @@ impl<'de, R: Reader<'de>> Parser<R> {
             res.is_ok() <==> (str_end(old(self).read.data(), old(self).read.idx() as int).is_some()
                 && decodable(old(self).read.data(), old(self).read.idx() as int, str_end(old(self).read.data(), old(self).read.idx() as int).unwrap() - 1)),
             final(self).read.idx() >= old(self).read.idx(),
+            res.is_err() ==> err_ok(res->Err_0, old(self).read.data()),
     { unimplemented!() }
 
     // SIMD token search: proved in unit `unchecked` (this is its contract, restated): jumps to the first byte at/after idx that
@@ -113,8 +114,11 @@ impl<'de, R: Reader<'de>> Parser<R> {
     // error constructor that first consumes the mistyped value: only totality is used
     #[verifier::external_body]
     pub fn peek_invalid_type(&mut self, peek: u8, exp: &str) -> (e: Error)
-        requires old(self).pinv(),
+        // proved for the real function in unit `typed_err`: it may step back one byte (onto `[` / `{`)
+        requires old(self).pinv(), old(self).read.idx() >= 1, peek == old(self).read.data()[old(self).read.idx() - 1],
+            old(self).nospace_start == -128 || old(self).nospace_start <= old(self).read.idx() - 1,
         ensures final(self).pinv(), final(self).same_doc(old(self)),
+            err_ok(e, old(self).read.data()),
     { unimplemented!() }
 
 //@extract file=src/parser.rs impl="Parser<R>" fn=get_from_object_checked
@@ -128,6 +132,8 @@ impl<'de, R: Reader<'de>> Parser<R> {
             // member well formed; the reader then stands just after the colon of the FIRST matching member
             res.is_ok() <==> object_lookup(old(self).read.data(), old(self).read.idx() as int, target_key.spec_bytes()).is_some(),
             res.is_ok() ==> final(self).read.idx() == object_lookup(old(self).read.data(), old(self).read.idx() as int, target_key.spec_bytes()).unwrap(),
+            // every error is made by Parser::error: positioned inside the input (C20)
+            res.is_err() ==> err_ok(res->Err_0, old(self).read.data()),
 //@before /match self.skip_space\(\) \{/ #1
         let ghost s = self.read.data();
         let ghost i0 = self.read.idx() as int;
@@ -158,6 +164,8 @@ impl<'de, R: Reader<'de>> Parser<R> {
             // least one more byte; the reader then stands on the first byte of element `index`
             res.is_ok() <==> array_lookup(old(self).read.data(), old(self).read.idx() as int, index as nat).is_some(),
             res.is_ok() ==> final(self).read.idx() == array_lookup(old(self).read.data(), old(self).read.idx() as int, index as nat).unwrap(),
+            // every error is made by Parser::error: positioned inside the input (C20)
+            res.is_err() ==> err_ok(res->Err_0, old(self).read.data()),
 //@before /let mut count =/
         let ghost s = self.read.data();
         let ghost i0 = self.read.idx() as int;
